@@ -59,8 +59,8 @@ pub fn replay_rows(tlc_out: &str, rep: &mut Report) {
             continue;
         }
         let aerr = an.error_kinds.first().map(|e| e.1.clone()).unwrap_or_default();
-        // M_C06 on the two real components (these rows are straight-line by construction)
-        if !aerr.is_empty() && ok {
+        // M_C06 on the two real components (rows are straight-line unless they say otherwise)
+        if !aerr.is_empty() && ok && row["straight"] != false {
             rep.violation("C06", "valid_statement_rejected", json!({"checker_error": aerr}), json!({"line": text, "checker_error": aerr, "run": "ok"}));
         }
         if aerr.is_empty() && !ok && is_bad(&kind) {
